@@ -91,6 +91,9 @@ def gen_population(rng):
     while len(names) < n:
         k = rng.choice([1, 2, 3, 3, 4, 6])
         nm = "".join(rng.choice(ALPHA) for _ in range(k))
+        if rng.random() < 0.08:
+            # names that are no usable wildcard pattern (the wildcard pass sees the escaped name as an ordinary word)
+            nm = rng.choice(["a**b", "x[*y", "t***", "**y", "q*[", "p**", "m[*", "z***z"])
         if nm in (".", "..") or "/" in nm or "\0" in nm or nm.startswith("-") or "\t" in nm:
             continue
         names.add(nm)
